@@ -415,7 +415,7 @@ def run_pipeline_depth(s, limit=None):
 def c15(out, tier, rng):
     def size_cfg(n, lim):
         return (f"SPECIFICATION SSpec\nCONSTANTS N = {n} StackLimit {'<- Unbounded' if lim is None else '= ' + str(lim)}\n"
-                + ("INVARIANT RoundsBounded\nINVARIANT NoCrash\nINVARIANT BfsComplete\n" if lim is None else "INVARIANT NoCrash\n") + "CHECK_DEADLOCK FALSE\n")
+                + ("INVARIANT RoundsBounded\nINVARIANT NoCrash\nINVARIANT BfsComplete\nINVARIANT BfsWellBehaved\nINVARIANT StepMachineIsTheFunction\nPROPERTY RoundsRefine\n" if lim is None else "INVARIANT NoCrash\n") + "CHECK_DEADLOCK FALSE\n")
     out.design("Size", size_cfg(5, None), expect_depth=4, label="Size N=5 (all 1024 graphs), iterative")
     if tier == "thorough":
         out.design("Size", size_cfg(6, None), expect_depth=4, label="Size N=6 (all 32768 graphs), iterative", timeout=7200)
